@@ -52,6 +52,7 @@ type c14Params struct {
 	Wrap    bool   `json:"wrap,omitempty"`   // harness B: the second client connects after the 16-bit id counter has wrapped
 	Follow  int    `json:"follow,omitempty"` // harness C: data size of the request the new client sends right behind its login (0: a user-list request)
 	Joined  bool   `json:"joined,omitempty"` // harness C: login and follow-up request arrive in one segment
+	Board   int    `json:"board,omitempty"`  // harness B: size of the message board in 16-byte units (0: 2560 = 40 KiB)
 }
 
 // c14Answered[kind] = the request kind gets a reply when issued alone (measured by a baseline
@@ -180,7 +181,11 @@ var c14KindNames = []string{"keepalive", "userlist", "chat", "getmsgs40k", "pm"}
 
 func c14B(p c14Params) (out explore.SchedOutcome) {
 	vrt.BeginSetup()
-	board := strings.Repeat("0123456789abcdef", 2560) // 40 KiB: the reply needs two Write calls
+	units := 2560 // 40 KiB: the reply needs two Write calls
+	if p.Board > 0 {
+		units = p.Board
+	}
+	board := strings.Repeat("0123456789abcdef", units)
 	w := world.New(world.Cfg{Board: board, Accounts: []world.Acct{{Login: "guest", Name: "Guest", Access: world.AllAccess}}})
 	defer w.Close()
 	a, ra := w.Connect("10.0.0.1:1001", "guest", "", "alice")
@@ -423,6 +428,8 @@ func runC14(w *explore.Worker) {
 		jobs = append(jobs, job{c14Params{Harness: "B", Reqs: r}, boundB})
 	}
 	jobs = append(jobs, job{c14Params{Harness: "B", Reqs: []int{c14KeepAlive, c14UserList, c14PM, c14KeepAlive}, Wrap: true}, 0})
+	// a message board that has outgrown the 65,535 bytes one field can carry (a state reachable by posting)
+	jobs = append(jobs, job{c14Params{Harness: "B", Reqs: []int{c14GetMsgs, c14KeepAlive, c14UserList, c14GetMsgs}, Board: 4400}, 0})
 	// harness C: login under load
 	for _, f := range []int{0, 6000} {
 		for _, j := range []bool{false, true} {
